@@ -2,7 +2,7 @@
 
 use crate::async_vfs::{AsyncFileSystem, AsyncVfsPath, SeekAndRead};
 use crate::error::VfsErrorKind;
-use crate::{VfsMetadata, VfsResult};
+use crate::{VfsFileType, VfsMetadata, VfsResult};
 
 use async_std::io::Write;
 use async_trait::async_trait;
@@ -76,6 +76,9 @@ impl AsyncOverlayFS {
         if let Some(index) = separator {
             let parent_path = &path[..index];
             if self.exists(parent_path).await? {
+                if self.metadata(parent_path).await?.file_type != VfsFileType::Directory {
+                    return Err(VfsErrorKind::Other("Parent path is not a directory".into()).into());
+                }
                 self.write_path(parent_path)?.create_dir_all().await?;
                 return Ok(());
             }
@@ -124,6 +127,13 @@ impl AsyncFileSystem for AsyncOverlayFS {
 
     async fn create_dir(&self, path: &str) -> VfsResult<()> {
         self.ensure_has_parent(path).await?;
+        if self.exists(path).await? {
+            // also covers entries that exist in a lower layer only
+            return match self.metadata(path).await?.file_type {
+                VfsFileType::File => Err(VfsErrorKind::FileExists.into()),
+                VfsFileType::Directory => Err(VfsErrorKind::DirectoryExists.into()),
+            };
+        }
         self.write_path(path)?.create_dir().await?;
         let whiteout_path = self.whiteout_path(path)?;
         if whiteout_path.exists().await? {
@@ -138,6 +148,10 @@ impl AsyncFileSystem for AsyncOverlayFS {
 
     async fn create_file(&self, path: &str) -> VfsResult<Box<dyn Write + Send + Unpin>> {
         self.ensure_has_parent(path).await?;
+        if self.exists(path).await? && self.metadata(path).await?.file_type == VfsFileType::Directory {
+            // a directory of a lower layer must not be shadowed by a file
+            return Err(VfsErrorKind::Other("Path is a directory".into()).into());
+        }
         let result = self.write_path(path)?.create_file().await?;
         let whiteout_path = self.whiteout_path(path)?;
         if whiteout_path.exists().await? {
@@ -187,8 +201,12 @@ impl AsyncFileSystem for AsyncOverlayFS {
     }
 
     async fn remove_file(&self, path: &str) -> VfsResult<()> {
-        // Ensure path exists
-        self.read_path(path).await?;
+        // Ensure path exists; never hide a directory that still has entries
+        if self.read_path(path).await?.metadata().await?.file_type == VfsFileType::Directory
+            && self.read_dir(path).await?.next().await.is_some()
+        {
+            return Err(VfsErrorKind::Other("Not a file".into()).into());
+        }
         let write_path = self.write_path(path)?;
         if write_path.exists().await? {
             write_path.remove_file().await?;
@@ -200,8 +218,13 @@ impl AsyncFileSystem for AsyncOverlayFS {
     }
 
     async fn remove_dir(&self, path: &str) -> VfsResult<()> {
-        // Ensure path exists
-        self.read_path(path).await?;
+        // Ensure path exists, is a directory and is empty in the merged view
+        if self.read_path(path).await?.metadata().await?.file_type != VfsFileType::Directory {
+            return Err(VfsErrorKind::Other("Not a directory".into()).into());
+        }
+        if self.read_dir(path).await?.next().await.is_some() {
+            return Err(VfsErrorKind::Other("Directory to remove is not empty".into()).into());
+        }
         let write_path = self.write_path(path)?;
         if write_path.exists().await? {
             write_path.remove_dir().await?;
